@@ -293,8 +293,10 @@ def adc(img, gain, saturation_capacity=None, warn_saturate=False, dtype=None):
     reached.
 
     """
-    # copy so the saturation clip below does not modify the caller's frame
-    img = np.array(img)
+    # copy so the saturation clip below does not modify the caller's frame, in
+    # floating point so that neither a fractional capacity nor the powers of
+    # the gain polynomial are truncated or wrapped in an integer frame
+    img = np.array(img, dtype=float)
 
     # Enforce saturation capacity
     if saturation_capacity:
